@@ -376,6 +376,25 @@ func runC15(c *Ctx) {
 			}
 		}
 	}
+
+	// ---- R6 resolving arguments leaves the document and the schema as it found them
+	r6 := c.Rule("R6", "argument resolution writes no field of a document or schema node", 3)
+	{
+		e := newEffects(p)
+		var roots []*ssa.Function
+		for _, n := range []string{"ast.(*Field).ArgumentMap", "ast.(*Directive).ArgumentMap", "ast.arg2map", "ast.(*Value).Value"} {
+			if f := p.Func(n); f != nil {
+				roots = append(roots, f)
+			}
+		}
+		cs := map[*ssa.Function]bool{}
+		for fn := range p.reachableFrom(roots, e.dyn) {
+			if p.inModule(fn) {
+				cs[fn] = true
+			}
+		}
+		treeWrites(c, e, cs, r6, "argument resolution")
+	}
 }
 
 func isBoolPhi(ph *ssa.Phi) bool {
